@@ -36,7 +36,7 @@ def main():
     a = ap.parse_args()
     d = os.path.abspath(a.seed_dir)
     meta = json.load(open(os.path.join(d, 'meta.json')))
-    prop = meta.get('property') or meta.get('breaks')
+    prop = meta.get('property') or meta.get('breaks_property') or meta.get('breaks')
     out = {'seed': d, 'property': prop}
     scratch = tempfile.mkdtemp(prefix='seedrun_', dir='/tmp')
     try:
